@@ -60,7 +60,7 @@ def edit_case(r, k, G, acc, start, w, edits):
 
 
 def explore(r, k, G, starts, n, dev, double=False, dev2=1):
-    acc = U.A(G)
+    acc = U.A_reuse(G)
     for start in starts:
         if not double:
             for w in U.walks_dev(G, start, n, dev):
